@@ -400,6 +400,68 @@ def priming_family(kind):
     return out
 
 
+def reclassification(hints):
+    """History on one Automaton: an identifier declared as a constant, used and classified, is then declared as a
+    variable with the same hint (omega accepts this; only the primed copy is new). From then on it is flexible:
+    the support classification and `prime` must follow the declaration in force, not the first answer."""
+    import z3
+    import omega.symbolic.temporal as trl
+    import omega.symbolic.prime as prm
+    from vlib import bdd2smt, link
+    out = []
+    for hint in hints:
+        name = f'reclassification of a constant as a variable, hint {hint}'
+        sample = dict(hint=hint, predicate='(x + c) = 0')
+        aut = trl.Automaton()
+        aut.declare_variables(x=(0, 2))
+        aut.declare_constants(c=hint)
+        u = aut.add_expr('(x + c) = 0')
+        exp = bdd2smt.Exporter(aut.bdd)
+        bits = exp.bits
+        q = {}
+        problems = []
+
+        def ren(term, names):
+            sub = []
+            for n in names:
+                for b in link.bits_of(n, aut.vars[n]):
+                    sub.append((bits(b), bits(b + "'")))
+            return z3.substitute(term, *sub)
+
+        def differs(a, b):
+            sol = z3.Solver()
+            sol.add(a != b)
+            r = str(sol.check())
+            q[r] = q.get(r, 0) + 1
+            return r != 'unsat'
+        try:
+            U = exp.export(u)
+            before = dict(rigid=prm.rigid_support(u, aut), flexible=prm.flexible_support(u, aut))
+            if before != dict(rigid={'c'}, flexible={'x'}):
+                problems.append(f'before the re-declaration: {before}')
+            if differs(exp.export(prm.prime(u, aut)), ren(U, ['x'])):
+                problems.append('before the re-declaration: prime(u) is not u with x primed')
+            aut.declare_variables(c=hint)
+            after = dict(rigid=prm.rigid_support(u, aut), flexible=prm.flexible_support(u, aut),
+                         vars=prm.vars_in_support(u, aut))
+            if after != dict(rigid=set(), flexible={'x', 'c'}, vars={'x', 'c'}):
+                problems.append(f'after declaring c as a variable the classification is {after}')
+            pu = prm.prime(u, aut)
+            if differs(exp.export(pu), ren(U, ['x', 'c'])):
+                problems.append('after declaring c as a variable prime(u) is not u with x and c primed')
+            if differs(exp.export(prm.unprime(pu, aut)), U):
+                problems.append('after declaring c as a variable unprime(prime(u)) differs from u')
+        except Exception as e:  # noqa
+            problems.append(f'raised {type(e).__name__}: {str(e)[:100]}')
+        if problems:
+            out.append(core.res(name, 'violation', queries=q, sample=sample, nontrivial=True, functions=FUNCS,
+                                signature='reclassification', detail=f'hint {hint}: {problems[0]} ({len(problems)} problem(s))',
+                                cex=dict(kind='reclass', hint=list(hint))))
+        else:
+            out.append(core.res(name, 'holds', queries=q, sample=sample, nontrivial=True, functions=FUNCS))
+    return out
+
+
 def replay(payload):
     c = payload['cex']
     if c['kind'] == 'core':
@@ -426,6 +488,9 @@ def replay(payload):
     if c['kind'] == 'api':
         r = api_declarations([(c['lo'], c['hi'])], 0)
         return r[0]['status'] == 'violation', r[0]['detail']
+    if c['kind'] == 'reclass':
+        r = reclassification([tuple(c['hint'])])
+        return r[0]['status'] == 'violation', r[0].get('detail') or 'conforms'
     if c['kind'] == 'priming':
         rs = priming_family(c['which'])
         bad = [r for r in rs if r['status'] == 'violation' and r['cex'].get('op') == c['op']]
@@ -444,6 +509,9 @@ def run(tier, seed, t0, only=None):
         for be in (['cudd'] if i % (4 * size) else ['cudd', 'autoref']):
             tasks.append(dict(mod='vlib.props.c18', fn='api_declarations', kw=dict(pairs=pairs[i:i + size], seed=seed + i),
                               backend=be, timeout=1800, name=f'{be}:api:{pairs[i]}..'))
+    for be in ('cudd', 'autoref'):
+        tasks.append(dict(mod='vlib.props.c18', fn='reclassification', kw=dict(hints=[(-2, 1), (0, 3), (-4, -1), (1, 2)]), backend=be,
+                          timeout=600, name=f'{be}:reclassification'))
     for kind in ('bools', 'ints', 'clash'):
         for be in ('cudd', 'autoref'):
             tasks.append(dict(mod='vlib.props.c18', fn='priming_family', kw=dict(kind=kind), backend=be,
